@@ -72,6 +72,28 @@ def install_kernel_census(path):
     atexit.register(dump)
 
 
+def install_python_census(path):
+    """VERIF_PYCENSUS=<file> (development aid, not used by the registered commands): record which functions of the
+    library's Python sources are entered, one JSON line per worker at exit"""
+    import atexit
+    seen = {}
+
+    def prof(frame, event, arg):
+        if event == 'call':
+            fn = frame.f_code.co_filename
+            i = fn.find('/src/fqe/')
+            if i >= 0:
+                key = '%s:%s:%d' % (fn[i + 5:], frame.f_code.co_name, frame.f_code.co_firstlineno)
+                seen[key] = seen.get(key, 0) + 1
+    sys.setprofile(prof)
+
+    def dump():
+        sys.setprofile(None)
+        with open(path, 'a') as f:
+            f.write(json.dumps(seen) + '\n')
+    atexit.register(dump)
+
+
 def _jsonable(o):
     if hasattr(o, 'item'):
         return o.item()
@@ -98,6 +120,8 @@ def main():
         fqe.settings.use_accelerated_code = False
     if os.environ.get('VERIF_COVER') and mode != 'PY0':
         install_kernel_census(os.environ['VERIF_COVER'])
+    if os.environ.get('VERIF_PYCENSUS'):
+        install_python_census(os.environ['VERIF_PYCENSUS'])
     with open(jout, 'a') as f:
         for case in job['cases']:
             try:
